@@ -93,7 +93,7 @@ FIRST_MISSED = {  # caught only after the extension named here (recorded while t
  "C10-m10": "branch names that are the 40-digit id of a stored commit or tree",
  "C11-m9": "neutralised by ba727ef (its trigger is a branch name with a line break)",
  "C11-m10": "zero-padded reflog positions; patch carried over",
- "C12-m9": "NOT caught: needs a zone with a transition between the commit and the reading `log` process; the generated zones have one fixed offset each",
+ "C12-m9": "first missed (the generated zones had one fixed offset each); caught since the C12 API layer reads two thirds of its commits in a process whose own zone has a transition (stored offset = the reader's offset today or its former one, commit older or younger than the transition)",
  "C12-m10": "names in quotes; was caught by C20 before",
  "C13-m9": "caught as built (a last report line that ends in a blank); patch carried over",
  "C13-m10": "a second non-ASCII directory entry that is valid UTF-8 (`é-old/`), so that entry and path differ in validity",
